@@ -71,6 +71,13 @@ def generate(rng):
         scn['tear'] = [rng.choice([0, 1, 5, 40]) for _ in range(rng.randint(1, 4))]
     scn['shell_latency'] = rng.choice([1, 50, 2000, 40000])
     scn['hang_cmd'] = rng.random() < 0.3
+    # ssh normally leaves the local terminal without echo and lets the remote side echo; a stuck remote then echoes nothing
+    scn['session_echo'] = rng.random() < 0.65
+    # type-ahead: two commands are sent before the first prompt() is called (their outputs may arrive in one burst)
+    scn['type_ahead'] = rng.random() < 0.3
+    if scn['type_ahead']:
+        scn['cmds'] = [{'n': rng.choice([0, 5, 80]), 's': rng.randrange(100)}, {'n': rng.choice([5, 700, 1200, 1900]), 's': rng.randrange(100)}]
+        scn['shell_latency'] = rng.choice([1, 50])
     scn['hup_write'] = rng.choice(['ok', 'ok', 'ok', 'eio'])
     scn['vt_cap_s'] = 2000
     scn['step_cap'] = 300000
@@ -120,6 +127,9 @@ def run(scn):
                 tr['inputs'].append((tr['state'], line, tr['out_since_input']))
                 tr['out_since_input'] = b''
                 return line
+            local_echo = scn.get('session_echo', True)
+            if not local_echo:
+                pty.attr[3] &= ~ECHO
             try:
                 for st in scn.get('script', []):
                     if st.get('delay'):
@@ -133,7 +143,8 @@ def run(scn):
                             pty.attr[3] &= ~ECHO
                         yield say(TEXTS[kd])
                         line = yield from readline()
-                        pty.attr[3] |= ECHO
+                        if local_echo:
+                            pty.attr[3] |= ECHO
                         if line is None:
                             yield ('exit', 255)
                             return
@@ -168,6 +179,8 @@ def run(scn):
                             if line is None:
                                 yield ('exit', 0)
                                 return
+                            if not local_echo:
+                                yield say(line.decode('latin-1') + '\n')       # the remote terminal echoes what was typed
                             yield ('sleep', scn.get('shell_latency', 1))
                             ln = line.decode('latin-1').strip()
                             tr['cmds'].append(ln)
@@ -238,6 +251,7 @@ def run(scn):
             typed = bytes(r.pty.in_log) + bytes(r.pty.discard_log)
             nset = typed.count(b"PS1='[PEXPECT]") + typed.count(b"set prompt='[PEXPECT]")
             d.update(script=[s['k'] for s in scn.get('script', [])], opts=scn.get('opts'), flavour=flavour,
+                     session_echo=scn.get('session_echo', True),
                      prompt_setting_commands_received=nset, server_state=tr['state'])
             out.append(Violation(clause, msg, d.pop('site', None), d))
         s = T.SimPxssh(timeout=scn.get('timeout', 30), encoding=enc)
@@ -291,7 +305,40 @@ def run(scn):
             elif opts.get('auto_prompt_reset', True) and tr['prompt'] != '[PEXPECT]$ ':
                 V('C17.silent_success', 'login() returned True with prompt reset enabled but the shell prompt is %r' % tr['prompt'])
         # after a successful login with the unique prompt: prompt() delimits each command's output exactly
-        if res is True and not out and opts.get('auto_prompt_reset', True):
+        if res is True and not out and opts.get('auto_prompt_reset', True) and scn.get('type_ahead') and len(scn.get('cmds', [])) == 2:
+            c1, c2 = scn['cmds']
+            cmd1, cmd2 = 'echo %d %d' % (c1['n'], c1['s']), 'echo %d %d' % (c2['n'], c2['s'])
+            try:
+                w.begin_op(1)
+                mark = len(r.pty.out_log)
+                s.sendline(cmd1)
+                s.sendline(cmd2)
+                w.sleep(300000)                 # the caller is slow: both answers are waiting
+                ok1 = s.prompt(timeout=20)
+                b1 = s.before
+                ok2 = s.prompt(timeout=20)
+                b2 = s.before
+                tob = lambda x: x if isinstance(x, bytes) else x.encode('latin-1')
+                # kernel truth: what the terminal emitted since the two lines were typed, cut at the prompts
+                stream = bytes(r.pty.out_log)[mark:]
+                segs = stream.split(b'[PEXPECT]$ ')
+                want1 = segs[0].decode('latin-1') if len(segs) > 0 else ''
+                want2 = segs[1].decode('latin-1') if len(segs) > 1 else ''
+                t1 = payload(c1['n'], c1['s']).replace('\n', '\r\n') + '\r\n'
+                t2 = payload(c2['n'], c2['s']).replace('\n', '\r\n') + '\r\n'
+                if t1 not in want1 or t2 not in want2:
+                    V('C17.prompt', 'type-ahead: the prompts after login do not line up with the commands (left-over prompts from the login phase)',
+                      segs=[x[-40:] for x in segs[:4]])
+                if out:
+                    pass
+                elif not (ok1 and ok2):
+                    V('C17.prompt', 'type-ahead: prompt() returned %r then %r for two answered commands' % (ok1, ok2))
+                elif tob(b1) != want1.encode('latin-1') or tob(b2) != want2.encode('latin-1'):
+                    V('C17.prompt', 'type-ahead: prompt() did not delimit the two commands\' outputs exactly',
+                      got=[tob(b1)[-60:], tob(b2)[-60:]], want=[want1[-60:], want2[-60:]], lens=[len(tob(b1)), len(want1), len(tob(b2)), len(want2)])
+            except (SimHang, pexpect.ExceptionPexpect, OSError) as e:
+                V('C17.prompt', 'type-ahead commands after login failed: %s %s' % (type(e).__name__, str(e)[:120]))
+        elif res is True and not out and opts.get('auto_prompt_reset', True):
             for kx, c in enumerate(scn.get('cmds', [])):
                 w.begin_op(kx + 1)
                 cmd = 'echo %d %d' % (c['n'], c['s'])
